@@ -202,3 +202,25 @@ Proof.
   unfold zlen in *. rewrite app_length, Nat2Z.inj_add. fold (zlen (pack_header n)).
   rewrite pack_header_len. lia.
 Qed.
+
+(* a ref-delta whose base has not been injected yet: the looked-up object is emitted right in front of it and the
+   rewritten delta points exactly at that entry *)
+Theorem ref_delta_gets_its_base odb s e id o out s' stop :
+  e_hdr e = HRef id -> rfind_oid (changes s) id = None -> lookup odb id = Some o ->
+  step odb s e = Some (out, s', stop) ->
+  exists b e', out = [IEntry b; IEntry e'] /\ stop = false /\
+    e_hdr b = HBase (o_kind o) /\ e_data b = o_data o /\ e_comp b = o_comp o /\
+    e_hdr e' = HOfs (e_off e' - e_off b) /\ e_comp e' = e_comp e /\ e_dsize e' = e_dsize e /\ e_data e' = e_data e.
+Proof.
+  intros Hh Hr Hl. unfold step. rewrite Hh, Hr, Hl.
+  destruct (shifted s (e_off e)) as [boff|] eqn:Hs; [|discriminate].
+  apply shifted_some in Hs.
+  set (b := set_off (from_data_obj o) boff).
+  set (s1 := track s boff (e_off e) (bytes_in_pack b) id).
+  assert (Ht1 : total s1 = total s + bytes_in_pack b) by apply track_total.
+  unfold shift_point. destruct (shifted s1 (e_off e)) as [off'|] eqn:Hs1; [|discriminate].
+  apply shifted_some in Hs1.
+  intros H; injection H as <- <- <-.
+  eexists b, _. split; [reflexivity|]. cbn [e_hdr e_off e_comp e_dsize e_data].
+  repeat split. f_equal. cbn [b set_off e_off]. lia.
+Qed.
